@@ -11,6 +11,7 @@ import Driver.TrimeshFam
 import Driver.PolyFam
 import Driver.SymFam
 import Driver.IfaceFam
+import Driver.DictFam
 
 open Driver
 
@@ -37,6 +38,7 @@ def stepLine (st : St) (line : String) : St × String :=
   | "disp" :: _ => (st, DispFam.step (line.drop 5).toString)
   | "sym" :: _ => (st, SymFam.step (line.drop 4).toString)
   | "iface" :: _ => (st, IfaceFam.step (line.drop 6).toString)
+  | "dict" :: _ => (st, DictFam.step (line.drop 5).toString)
   | _ => (st, "bad-family")
 
 partial def loop (h : IO.FS.Stream) (out : IO.FS.Stream) (st : St) : IO Unit := do
